@@ -45,12 +45,18 @@ func crlf(b []byte) []byte { return bytes.ReplaceAll(b, []byte("\n"), []byte("\r
 
 func genC06(c *Ctx) {
 	for _, f := range formats {
-		for i := 0; i < c.n(120); i++ {
+		long := c.longLineInputs(f.name)
+		for i := 0; i < c.n(120)+len(long); i++ {
 			var data []byte
 			kind := "wf"
-			if i%3 == 2 {
+			if i >= c.n(120) {
+				data = long[i-c.n(120)]
+				kind = "wf-long"
+			} else if i%3 == 2 {
 				data = f.malformed(c)
 				kind = "malformed"
+			} else if f.name == "bed" && i%3 == 1 {
+				data = c.bedWithComments(true)
 			} else {
 				data = f.wellFormed(c)
 			}
@@ -94,13 +100,20 @@ func genC06(c *Ctx) {
 				}
 			}
 			// CRLF on well-formed input.
-			if kind == "wf" {
+			if kind == "wf" || kind == "wf-long" {
 				cr := crlf(data)
 				if f.name == "newick" {
 					cr = crlfOutsideQuotes(data) // an LF inside a quoted name is content, not a terminator
 				}
-				if got := itemsStr(f.decode(bytes.NewReader(cr), 0, limit)); got != base && oracle == "" {
+				if got := itemsStr(f.decode(bytes.NewReader(cr), 0, limit+len(cr))); got != base && oracle == "" {
 					oracle = "CRLF line terminators change the result: " + trunc(got, 120)
+				}
+				// CRLF text under other delivery schedules
+				for _, sizes := range [][]int{{1}, {7}, {4096}, {4095}, {3, 0, 5000}} {
+					nsched++
+					if got := itemsStr(f.decode(&chunkReader{data: cr, sizes: sizes}, 0, limit+len(cr))); got != base && oracle == "" {
+						oracle = fmt.Sprintf("CRLF text delivered in chunks %v decodes differently: %s", sizes, trunc(got, 120))
+					}
 				}
 			}
 			// File plain / gz.
@@ -141,6 +154,9 @@ func genC07(c *Ctx) {
 	for _, f := range formats {
 		for i := 0; i < c.n(12); i++ {
 			data := f.wellFormed(c)
+			if f.name == "bed" && i%2 == 1 {
+				data = c.bedWithComments(false)
+			}
 			if len(data) > maxLen {
 				data = f.wellFormed(c)
 			}
@@ -203,6 +219,12 @@ func genC07(c *Ctx) {
 		mk   func() (func(io.Writer) error, []byte)
 	}
 	ws := []wr{
+		{"fasta-long", func() (func(io.Writer) error, []byte) {
+			r := c.fastaRec(10)
+			r.Sequence = c.text([]int{1281, 1300, 4017, 5000, 8200}[c.rng.Intn(5)], ">")
+			t, _ := r.MarshalText()
+			return r.Write, t
+		}},
 		{"fasta", func() (func(io.Writer) error, []byte) {
 			r := c.fastaRec(200)
 			t, _ := r.MarshalText()
@@ -222,7 +244,11 @@ func genC07(c *Ctx) {
 		}},
 	}
 	for _, w := range ws {
-		for i := 0; i < c.n(10); i++ {
+		reps := c.n(10)
+		if w.name == "fasta-long" {
+			reps = 3
+		}
+		for i := 0; i < reps; i++ {
 			write, full := w.mk()
 			for k := 0; k <= len(full)+1; k++ {
 				lw := &limitWriter{k: k}
